@@ -150,15 +150,18 @@ func ReadKnownFindings(path string) ([]KnownFinding, []FixedFinding, error) {
 		}
 		switch {
 		case strings.HasPrefix(line, "known:"):
+			// known: property=C07 key="<rule>|<construct>" <what fails>
 			rest := strings.TrimSpace(strings.TrimPrefix(line, "known:"))
-			parts := strings.SplitN(rest, " ", 3)
-			if len(parts) < 2 || !strings.HasPrefix(parts[0], "property=") || !strings.HasPrefix(parts[1], "key=") {
+			parts := strings.SplitN(rest, " ", 2)
+			if len(parts) < 2 || !strings.HasPrefix(parts[0], "property=") || !strings.HasPrefix(parts[1], `key="`) {
 				return nil, nil, fmt.Errorf("bad known-finding line: %q", line)
 			}
-			k := KnownFinding{Property: strings.TrimPrefix(parts[0], "property="), Key: strings.ReplaceAll(strings.TrimPrefix(parts[1], "key="), "\\s", " ")}
-			if len(parts) == 3 {
-				k.What = parts[2]
+			body := strings.TrimPrefix(parts[1], `key="`)
+			end := strings.Index(body, `"`)
+			if end < 0 {
+				return nil, nil, fmt.Errorf("bad known-finding line (unterminated key): %q", line)
 			}
+			k := KnownFinding{Property: strings.TrimPrefix(parts[0], "property="), Key: body[:end], What: strings.TrimSpace(body[end+1:])}
 			ks = append(ks, k)
 		case strings.HasPrefix(line, "fixed:"):
 			rest := strings.TrimSpace(strings.TrimPrefix(line, "fixed:"))
